@@ -401,9 +401,16 @@ def views(types: Sequence[str], parents: Sequence[Sequence[int]], local: Sequenc
         if types[i] != ESD:
             ps = [p for p in parents[i] if types[p] != ESD]
             live = [p for p in ps if not any(p in anc[q] for q in ps if q != p)]  # drop shadowed parents
+            # a parent of a closer layer type (PROTOCOL < FUNCTIONAL-GROUP < BASE-VARIANT) decides over one of a farther type
+            # -- also when it only passes on what it inherited itself; parents of EQUAL type are not ranked (DON'T-CARE)
+            best: Dict[Key, int] = {}
+            for p in live:
+                for key in out[p]:
+                    best[key] = max(best.get(key, -1), RANK[types[p]])
             for p in live:
                 for key, tags in out[p].items():
-                    v.setdefault(key, set()).update(tags)
+                    if RANK[types[p]] == best[key]:
+                        v.setdefault(key, set()).update(tags)
             for inst in local[i]:
                 v[(inst["param"], inst["proto"])] = {inst["tag"]}
         out.append({k: frozenset(s) for k, s in v.items()})
@@ -436,7 +443,7 @@ def classify_view_error(i: int, key: Key, observed: Optional[str], admissible: F
         return "instance-of-unrelated-layer"
     if any(inst["layer"] in anc[by_tag[t]["layer"]] for t in admissible):
         return "farther-layer-wins"
-    return "inadmissible-instance"
+    return "parent-of-farther-layer-type-wins"
 
 
 # ---------------------------------------------------------------------------------------------
@@ -477,12 +484,18 @@ def lookup(view: Dict[Key, str], param: str, proto: Optional[str], parents: Sequ
 # Revision of the first COMPARAM-SUBSET document: revision r > 0 has the same specifications with OTHER defaults (the
 # re-resolution phase exchanges the document).  The check sets REVISION to the revision the judged database must show.
 REVISION = 0
+BIG_VALUES = (2 ** 53 + 1, 2 ** 64 - 1)  # not representable as a double / the largest 64 bit value
+BIG_REVISIONS = {100: BIG_VALUES[0], 101: BIG_VALUES[1]}
 
 
 def rev_text(default: str, rev: int) -> str:
     """The PHYSICAL-DEFAULT-VALUE of revision `rev` of a specification whose revision-0 default is `default`."""
     if rev == 0:
         return default
+    if rev in BIG_REVISIONS:  # every default is one very large integer
+        m = re.fullmatch(r"(.*?)([0-9]+)", default)
+        assert m is not None, default
+        return m.group(1) + str(BIG_REVISIONS[rev])
     m = re.fullmatch(r"(.*?)([0-9]+)", default)
     assert m is not None, default
     return m.group(1) + str(int(m.group(2)) + 7 * rev)
